@@ -226,6 +226,10 @@ def run(cx, rep):
                        sample={"constructor": nm, "position": pos, "emitted_literals": sorted(lits), "declared_domain": sorted(dom)})
     for nm in sorted(imported):
         rep.ob("C01.1", "exported/%s" % nm, nm in mod.exports, "the glue imports `%s` from @beff/client/codegen-v2, which does not export it" % nm, GLUE)
+    # ---------------------------------------------------------------- C01.6
+    rep.rule("C01.6", "the intersection smart constructor merges object members only when nothing observable is lost")
+    from rules.c08 import all_of_merge_rule
+    all_of_merge_rule(cx, rep, "C01.6")
     # ---------------------------------------------------------------- C01.2
     rep.rule("C01.2", "template-literal types are matched against the whole string")
     rx = [c for c in fam.classes.values() if any(tsast.type_str(ann) == "RegExp" for _, (o, ann) in fam.all_fields(c.name).items() if ann is not None)]
